@@ -23,7 +23,7 @@ def _resp_bytes(j):
 class Inst(object):
     """One makeRequest() call."""
     __slots__ = ("rid", "seq", "noreply", "d", "fired", "result", "cancelled", "written", "answered_by",
-                 "issued_closed", "cancel_conn")
+                 "issued_closed", "cancel_conn", "closes")
 
     def __init__(self, rid, seq, noreply):
         self.rid = rid
@@ -37,6 +37,7 @@ class Inst(object):
         self.answered_by = None
         self.issued_closed = False
         self.cancel_conn = None
+        self.closes = False
 
 
 class BrokerClientHarness(object):
@@ -108,6 +109,8 @@ class BrokerClientHarness(object):
                 self.viol("C06", "exactly-once", "request-deferred-fired-twice",
                           "request id %d completed %d times" % (inst.rid, inst.fired))
             self._judge_completion(inst)
+            if inst.closes and not self.closed:
+                self._do_close("")  # application code closing the client from inside the response callback
             return None
         inst.d.addBoth(cb)
 
@@ -204,6 +207,8 @@ class BrokerClientHarness(object):
             nreq = len(self.insts)
             if "req" in ops and nreq < self.cfg.get("max_reqs", 3):
                 en.append(("req:R", (0, 0)))
+                if self.cfg.get("reentrant") and not any(x.closes for x in self.insts) and not self.closed:
+                    en.append(("req:C", (0, 1)))  # its completion callback calls close() re-entrantly
                 if self.cfg.get("noreply", True):
                     en.append(("req:N", (0, 0)))
                 if self.dups < 1:
@@ -239,6 +244,7 @@ class BrokerClientHarness(object):
         noreply = arg == "N"
         rid = len(self.insts) + 1
         inst = Inst(rid, len(self.insts), noreply)
+        inst.closes = arg == "C"
         d = self.bc.makeRequest(rid, _req_bytes(rid, noreply), expectResponse=not noreply)
         inst.d = d
         inst.issued_closed = self.closed
@@ -284,7 +290,15 @@ class BrokerClientHarness(object):
         pend = self.pending_insts()
         had_attempt = bool(self.net.pending_attempts())
         self.closed = True
-        d = self.bc.close()
+        try:
+            d = self.bc.close()
+        except Exception as e:
+            import traceback
+            self.viol("C06", "completion", "close-raises:%s" % type(e).__name__,
+                      "close() raised %r (pending requests: %r)\n%s" % (
+                          e, [x.rid for x in self.pending_insts()], traceback.format_exc()[-600:]))
+            self.viol("C10", "close", "close-raises:%s" % type(e).__name__, "close() raised %r" % (e,))
+            return
         self.close_d = d
 
         def fired(res):
@@ -458,6 +472,9 @@ class BrokerClientHarness(object):
                     self.viol("C10", "reconnect", "pending-request-without-connection-attempt-or-timer",
                               "request id %d is pending but there is no connection, no attempt and no backoff timer"
                               % x.rid)
+                    self.viol("C06", "completion", "request-can-never-complete",
+                              "request id %d is pending but there is no connection, no connection attempt and no "
+                              "timer: nothing can ever complete it" % x.rid)
 
     # ------------------------------------------------------------------ explorer protocol
     def finish(self, horizon):
@@ -484,7 +501,7 @@ class BrokerClientHarness(object):
                 conns.append((c.client_closing, ids, bytes(c.b2c), bytes(c.c2b),
                               [(j, a) for _k, j, _d, a in self.sent_frames.get(c.cid, [])],
                               self.big_sent.get(c.cid), getattr(c, "_delivered", 0) if self.big_sent.get(c.cid) else 0))
-        insts = [(x.rid, x.noreply, x.fired, x.cancelled, type(getattr(x.result, "value", x.result)).__name__,
+        insts = [(x.rid, x.noreply, x.closes, x.fired, x.cancelled, type(getattr(x.result, "value", x.result)).__name__,
                   x.written[-1:] if not x.fired else None) for x in self.insts]
         mon = (insts, self.dups, self.closed, self.close_fired, self.consec_failures,
                None if self.expected_attempt_at is None else round(self.expected_attempt_at - self.clock.seconds(), 9),
